@@ -493,6 +493,8 @@ def ref_split_iter(model):
                     raise _PErr('IndentationError' if ref_stmt_ok(eq.strip()) else 'ParserError')
                 yield eq
             buf = []
+    if not complete:
+        raise _PErr('ParserError')       # 85765d5: a fence that is never closed
     if unmatched != 0:
         raise _PErr('ParserError')
 
